@@ -65,7 +65,7 @@ class TapeDist(ciw.dists.Distribution):
     def __repr__(self):
         return "TapeDist%r" % (self.key,)
 
-    def _value(self, t):
+    def _value(self, t, ind=None):
         tp = self.tape
         i = self.i
         if self.vals is not None:
@@ -75,6 +75,12 @@ class TapeDist(ciw.dists.Distribution):
             kk = self.rng.randint(tp["kmin"], tp["kmax"])
             if "tdep" in tp and t is not None:
                 kk += int(t) % tp["tdep"]
+            if tp.get("sdep") and ind is not None:
+                # state-dependent: looks at the population of the node the customer is at, through the public objects
+                try:
+                    kk += ind.simulation.nodes[ind.node].number_of_individuals % 2
+                except Exception:
+                    pass
             v = kk / tp["q"]
             if tp.get("ints") and kk % tp["q"] == 0:
                 v = kk // tp["q"]
@@ -97,7 +103,7 @@ class TapeDist(ciw.dists.Distribution):
         return v
 
     def sample(self, t=None, ind=None):
-        v = self._value(t)
+        v = self._value(t, ind)
         log = self.log
         log.seq += 1
         self.calls.append((self.i, t, getattr(ind, "id_number", None), v, log.seq, log.step))
